@@ -81,6 +81,20 @@ def run_impl(case):
     lines = [f"case {n} {fbits(bfeat)} {bselw}"]
     for i in range(n):
         lines.append(f"intr {fbits(ifeat[i])} {igran[i] // gran} {dw // igran[i]}")
+    if lib.rng_for(case["seed"], case["idx"], 848).random() < 0.2:
+        # composition: the arbiter sits in front of a decoder and the decoder's memory map is published on the arbiter's shared bus
+        # (`arb.bus.memory_map = dec.bus.memory_map`) — a map with a small window low down, a hole, and nothing above
+        import math
+        from amaranth.lib import wiring
+        from amaranth_soc.memory import MemoryMap
+        mm_ = MemoryMap(addr_width=max(1, aw + int(math.log2(dw // gran))), data_width=gran)
+        try:
+            mm_.add_resource(wiring.Component({}), name="low", size=2)
+            mm_.add_resource(wiring.Component({}), name="mid", size=1, addr=8)
+            arb.bus.memory_map = mm_
+            stats_map = 1
+        except (ValueError, AttributeError):
+            stats_map = 0
     sim = simutil.simulator(simutil.wrap(arb), case)
     sim.add_clock(1e-6)
     obs, fails = [], []
